@@ -58,6 +58,8 @@ def s_jobs(ctx):
     for procs in small:
         for sc in sched.scripts(2, finals=FINALS):
             jobs.append(('S', (procs,), sc, False, 0.25))
+    # a clock ~1e9 times larger than the timesteps
+    jobs += C01.big_clock_jobs(1)
     return jobs
 
 
